@@ -5,7 +5,8 @@ import json
 import sys
 
 pid, wt, n = sys.argv[1], sys.argv[2], int(sys.argv[3]) if len(sys.argv) > 3 else 2
-round2 = len(sys.argv) > 4 and sys.argv[4] == "round2"
+round2 = len(sys.argv) > 4 and sys.argv[4] in ("round2", "round3")
+round3 = len(sys.argv) > 4 and sys.argv[4] == "round3"
 for l in open("/verif/properties.jsonl"):
     p = json.loads(l)
     if p["id"] == pid:
@@ -17,6 +18,14 @@ extra = (" Other people have already produced the most obvious single-line chang
          "that each look fine alone, changes that only matter for a boundary hyper-parameter value or an unusual but documented "
          "calling pattern (continuing a run with global_step > 0, passing your own target networks / buffers / loggers, several "
          "parallel environments, multi-task wrappers), and changes whose effect is delayed by several steps." if round2 else "")
+if round3:
+    extra += (" Two earlier rounds have been done; already used, do NOT repeat: stale observation/action after reset, termination-vs-"
+              "truncation mix-ups, schedule/index shifts on warm-up or continuation, aliasing instead of cloning, global-RNG or set-order "
+              "nondeterminism in schedulers, dtype truncation of integer rewards, clip/mask off-by-ones, Huber delta/sign, PPO clip and "
+              "per-epoch old log-probs, log_alpha clamps, caches that ignore part of their key. Look for something else: interactions with "
+              "the logger argument, gradient_steps > 1, several updates per step, observation/action dimensions > 1, dtype (float64 "
+              "observations, integer actions), batch dimension handling ((N,) vs (N,1)), optional arguments left at None vs passed "
+              "explicitly, routines other than the most popular ones among the relevant files.")
 print(f"""You are given a git worktree of the Python repository mlaux1/rl-blox (a JAX/Flax toolbox of reinforcement-learning algorithms) at {wt}. Work ONLY inside {wt} (never touch /repo, never look at /verif). The package is installed in editable mode from another directory, so ALWAYS run python as `cd {wt} && PYTHONPATH={wt} JAX_PLATFORMS=cpu /venv/bin/python ...` and confirm once that `import rl_blox; print(rl_blox.__file__)` points into {wt}.
 
 Here is a semantic property that the library is supposed to satisfy:
